@@ -152,6 +152,8 @@ impl varlink::Interface for ScriptIface {
                     sx::opt_json(req.parameters.as_ref()),
                 ],
             ),
+            // what the Call API tells the implementation about the flags of this request
+            sx::tagged("api", vec![sx::boolean(call.wants_more()), sx::boolean(call.is_oneway())]),
         ]));
         let last = method.rsplit('.').next().unwrap_or("");
         if last.starts_with("Nx") {
@@ -1139,6 +1141,40 @@ impl Suite for WireSuite {
                         cases.push(Case {
                             input: mk_case(mode, cfg, &[total.clone()], &total),
                             tags: vec!["script-x-flags".into(), format!("kind:script:{}", name), format!("flags:{}", fl.join("+"))],
+                        });
+                    }
+                }
+            }
+        }
+        // the generated dispatch code: every method (and an unknown one) x parameters {absent, object, array,
+        // ill-typed, null} x flags, each followed by a plain built-in call
+        if let Some(cfg) = cfgs.iter().find(|c| c.has_gen) {
+            let methods = ["Echo", "Stream", "Fail", "Opt", "NoArgs", "Missing", "missing", "Echo2"];
+            let flagsets: Vec<Vec<&str>> = vec![vec![], vec!["more"], vec!["oneway"], vec!["upgrade"]];
+            for m in methods.iter() {
+                for pk in 0..5usize {
+                    for fl in flagsets.iter() {
+                        tok += 1;
+                        let t = format!("t{}gz", tok);
+                        let mut v = json!({"method": format!("org.example.vtest.{}", m)});
+                        match pk {
+                            0 => {}
+                            1 => { v["parameters"] = json!({"token": t, "n": 2}); }
+                            2 => { v["parameters"] = json!([t, 2]); }
+                            3 => { v["parameters"] = json!({"token": 7, "n": "x"}); }
+                            _ => { v["parameters"] = Value::Null; }
+                        }
+                        for f in fl.iter() {
+                            v[*f] = json!(true);
+                        }
+                        let mut total = serde_json::to_vec(&v).unwrap();
+                        total.push(0);
+                        let follow = json!({"method":"org.varlink.service.GetInfo","parameters":{"token": format!("t{}fz", tok)}});
+                        total.extend_from_slice(&serde_json::to_vec(&follow).unwrap());
+                        total.push(0);
+                        cases.push(Case {
+                            input: mk_case(if tok % 2 == 0 { "whole" } else { "feed" }, cfg, &[total.clone()], &total),
+                            tags: vec!["gen-x-params-x-flags".into(), format!("kind:gen:{}", m), format!("flags:{}", fl.join("+"))],
                         });
                     }
                 }
